@@ -159,6 +159,23 @@ def plan_C05(c):
                 calls.append({'ev': 'kern', 't': 1, 'x': jnum(n), 'y': jnum(sg * d), 'mode': mode})
     run_vectors(c, calls, 'kernel')
     g_small(c, ['round', 'checked_round'])
+    # every shift 1..38 x head class x remainder class {0, 1, half-1, half, half+1, unit-1} x sign x scale, both forms, 8 modes
+    MAXC = 2**127 - 1
+    calls = []
+    vecs = grid(c, 'round')
+    for mode in MODES:
+        calls.append({'ev': 'set', 't': 1, 'mode': mode})
+        for sh, hc, rc, sg, f in vecs:
+            unit = 10**sh
+            hmax = MAXC // unit
+            head = max(0, [0, 1, hmax - 1, hmax][hc])
+            half = unit // 2
+            coef = head * unit + [0, 1, half - 1, half, half + 1, unit - 1][rc]
+            if coef > MAXC:
+                coef = MAXC
+            for op in ('round', 'checked_round'):
+                calls.append({'ev': 'un', 't': 1, 'op': op, 'x': jdec((sg * coef, f)), 'n': f - sh})
+    run_vectors_with_modes(c, calls, 'roundgrid')
     v(c, 'c05', 6000, 200000)
 
 
